@@ -383,9 +383,12 @@ func (v *Validator) DecodeRLP(s *rlp.Stream) error {
 	v.Delegations = r.Delegations
 	v.Ext = r.Ext
 
-	if r.Expelled == 1 {
-		v.Expelled = true
+	// Expelled is a boolean stored as 0 or 1; any other byte would decode to false and
+	// re-encode as 0, i.e. one record with several accepted encodings.
+	if r.Expelled > 1 {
+		return fmt.Errorf("rlp: invalid validator expelled flag %d", r.Expelled)
 	}
+	v.Expelled = r.Expelled == 1
 	return nil
 }
 
